@@ -162,7 +162,7 @@ fn case<G: CurveTag>(bytes: &[u8], col: &mut Collector, large: bool) -> Result<(
     let cut = bytes.len().min(16);
     let mut chi = Choices::new(&bytes[..cut]);
     let class = chi.weighted(&[12, 14, 30, 12, 12, 20]);
-    let cfg = GenCfg { max_ops1: 10, max_closures: 2, max_ops2: 6, max_commits: 3, big_gates: if large { 40 } else { 0 } };
+    let cfg = GenCfg { max_ops1: 10, max_closures: 2, max_ops2: 6, max_commits: 3, big_gates: if large { 40 } else { 0 }, max_terms: if large { 10 } else { 4 } };
     let (prog, mut label): (Program, String) = match class {
         1 => {
             let (p, l) = gen_bad(&bytes[cut..], G::CURVE, &cfg);
